@@ -40,21 +40,22 @@ class C20(Prop):
                  "functions) + translator-generated option macros + model/implementation correspondence on the real driver")
     level_text = ("Lean 4 theorems about an executable model of give_uid_to_object, the euid tests of load_object/clone_object "
                   "(master exemption), f_seteuid, f_export_uid, f_getuid/f_geteuid and reload_object: for every history of "
-                  "load/clone/seteuid/export_uid/destruct/reload_object by any objects and every master policy the "
+                  "load/clone/seteuid/export_uid/destruct/reload_object by any objects (also from inside create() of objects under "
+                  "construction, also of virtual objects made by master::compile_object) and every master policy the "
                   "specification oracle judgeEv accepts the model's event trace; the model is tied to the source by the "
                   "regenerated AUTO_TRUST_BACKBONE/AUTO_SETEUID options and by running the real driver (ASan+UBSan) with a "
                   "policy-switchable logging master and the model on the same generated histories; the same oracle judges "
                   "every implementation trace")
     level_note = ("trusted: Lean kernel; extract.py; the correspondence harness (differential, only the generated histories); "
                   "master applies are oracle functions (a master that calls back into the acting object during an apply is not "
-                  "modelled); virtual objects, master/simul_efun reload and function-pointer geteuid are not modelled")
+                  "modelled); master/simul_efun reload and function-pointer geteuid are not modelled")
     rule = ("cases = corpus + known-finding inputs + boundary list + seeded random histories of load/clone/seteuid(string|int)/"
             "export_uid/destruct/reload_object performed by the master and by objects under five directories whose "
             "creator_file answer (own name, other user's name, backbone uid, root uid, NONAME, empty string, int, array, 0, "
             "runtime error) and valid_seteuid verdicts (1, 0, other ints, string, array, 0, runtime error; per object and uid) "
             "are switched during the case; a case is non-trivial when its trace has >= 2 lines; distinct = distinct "
             "canonical implementation trace")
-    not_covered = ["virtual objects (compile_object) keep the uids of the object the master returned; not modelled",
+    not_covered = ["the branch of clone_object that re-uses an unreferenced virtual object instead of asking compile_object again (ob->ref == 1) cannot occur with registered objects and is not modelled",
                    "destruct/reload of the master or simul_efun object (set_master on reload) is not modelled; the model's master is loaded once",
                    "a master apply that calls back into the creating object (e.g. makes it seteuid(0) during creator_file) is not modelled",
                    "the simul_efun object has uid NONAME / euid 0 and no exemption in load_object/clone_object; it is not an actor in the harness",
@@ -380,7 +381,7 @@ class C20(Prop):
     def histogram(self, cases, impl):
         h = {"steps": 0, "creations": 0, "cf_error": 0, "late_init": 0, "seteuid_approved": 0, "seteuid_refused": 0,
              "seteuid_zero": 0, "export_ok": 0, "export_refused": 0, "export_error": 0, "noeuid_load_error": 0,
-             "noeuid_clone_error": 0, "compile_object_calls": 0, "virtual_made": 0, "nested_ops": 0, "nested_creations": 0, "nested_noeuid_refused": 0, "max_nesting": 0, "backbone_grants": 0, "policy_errors": 0, "nobj": 0, "reloads": 0,
+             "noeuid_clone_error": 0, "compile_object_calls": 0, "virtual_handed_out": 0, "nested_ops": 0, "nested_creations": 0, "nested_noeuid_refused": 0, "max_nesting": 0, "backbone_grants": 0, "policy_errors": 0, "nobj": 0, "reloads": 0,
              "crash": 0}
         for c in cases:
             cur = None
@@ -400,8 +401,6 @@ class C20(Prop):
                     pend_cf = None
                 elif t[0] == "co":
                     h["compile_object_calls"] += 1
-                elif t[0] == "q":
-                    h["virtual_made"] = max(h["virtual_made"], 0) + (1 if False else 0)
                 elif t[0] == "cf":
                     pend_cf = t[2] if len(t) > 2 else None
                     if pend_cf == "err":
@@ -420,6 +419,8 @@ class C20(Prop):
                     pend_cf = None
                 elif t[0] == "r" and cur:
                     r = " ".join(t[1:])
+                    if len(r) > 1 and r[0] == "v" and r[1:].isdigit() and not cur.startswith("clone,v"):
+                        h["virtual_handed_out"] += 1
                     if cur.startswith("seteuid,s:"):
                         h["seteuid_approved" if r == "1" else "seteuid_refused"] += 1
                     elif cur == "seteuid,i:0" and r == "1":
